@@ -421,6 +421,8 @@ func (t *streamableHTTPClientTransport) handleSSEResponse(
 	reqID interface{},
 	options *streamOptions,
 ) (*json.RawMessage, error) {
+	// The caller hands the response over: close its body on every return path.
+	defer httpResp.Body.Close()
 	reader := bufio.NewReader(httpResp.Body)
 	var rawResult *json.RawMessage
 	var resultReceived bool
